@@ -7,9 +7,9 @@ import MtxVerif.Lemmas.C08
 namespace MtxVerif.C08
 
 /-! ### Duration -/
-theorem marshalDur_eq_textOf (fmt : Int → Bytes) (d : Int) (h1 : minI64 < d) (h2 : d ≤ maxI64) :
-    marshalDur fmt d = textOf fmt (decide (d < 0)) (if d < 0 then -d else d) := by
-  unfold marshalDur textOf
+theorem marshalDurOld_eq_textOf (fmt : Int → Bytes) (d : Int) (h1 : minI64 < d) (h2 : d ≤ maxI64) :
+    marshalDurOld fmt d = textOf fmt (decide (d < 0)) (if d < 0 then -d else d) := by
+  unfold marshalDurOld textOf
   by_cases hneg : d < 0
   · have hw : wrap64 (-d) = -d := wrap64_id (by unfold minI64 maxI64 two63 at *; omega) (by unfold minI64 maxI64 two63 at *; omega)
     have hnn : 0 ≤ -d := by omega
@@ -17,16 +17,15 @@ theorem marshalDur_eq_textOf (fmt : Int → Bytes) (d : Int) (h1 : minI64 < d) (
   · have hnn : 0 ≤ d := by omega
     simp only [hneg, decide_false, Bool.false_eq_true, if_false, Int.tdiv_eq_ediv_of_nonneg hnn, Int.tmod_eq_emod_of_nonneg hnn]
 
-theorem marshalDurFixed_eq_textOf (fmt : Int → Bytes) (d : Int) :
-    marshalDurFixed fmt d = textOf fmt (decide (d < 0)) (if d < 0 then -d else d) := by
-  unfold marshalDurFixed textOf
+theorem marshalDur_eq_textOf (fmt : Int → Bytes) (d : Int) :
+    marshalDur fmt d = textOf fmt (decide (d < 0)) (if d < 0 then -d else d) := by
+  unfold marshalDur textOf
   by_cases hneg : d < 0 <;> simp only [hneg, decide_true, decide_false, if_true, Bool.false_eq_true, if_false]
 
-/-- **Duration round trip**: every duration except the most negative one survives
-`MarshalJSON` → `UnmarshalJSON` (for every `String`/`ParseDuration` pair satisfying `DurLib`). -/
-theorem duration_rt {fmt : Int → Bytes} {parse : Bytes → Option Int} (L : DurLib fmt parse)
-    (d : Int) (h1 : minI64 < d) (h2 : d ≤ maxI64) : unmarshalDur parse (marshalDur fmt d) = some d := by
-  rw [marshalDur_eq_textOf fmt d h1 h2]
+/-- the old marshaller: every duration except the most negative one survived -/
+theorem durationOld_rt_partial {fmt : Int → Bytes} {parse : Bytes → Option Int} (L : DurLib fmt parse)
+    (d : Int) (h1 : minI64 < d) (h2 : d ≤ maxI64) : unmarshalDur parse (marshalDurOld fmt d) = some d := by
+  rw [marshalDurOld_eq_textOf fmt d h1 h2]
   by_cases hneg : d < 0
   · have := unmarshal_textOf L true (-d) (by omega) (Or.inl (by unfold minI64 maxI64 two63 at *; omega)) (fun _ => by omega)
     simp only [hneg, decide_true, if_true] at this ⊢
@@ -35,10 +34,11 @@ theorem duration_rt {fmt : Int → Bytes} {parse : Bytes → Option Int} (L : Du
     simp only [hneg, decide_false, Bool.false_eq_true, if_false] at this ⊢
     exact this
 
-/-- with the proposed marshaller the round trip holds on the whole int64 range -/
-theorem durationFixed_rt {fmt : Int → Bytes} {parse : Bytes → Option Int} (L : DurLib fmt parse)
-    (d : Int) (h1 : minI64 ≤ d) (h2 : d ≤ maxI64) : unmarshalDur parse (marshalDurFixed fmt d) = some d := by
-  rw [marshalDurFixed_eq_textOf]
+/-- **Duration round trip at full strength**: every int64 duration survives `MarshalJSON` → `UnmarshalJSON`
+(for every `String`/`ParseDuration` pair satisfying `DurLib`). -/
+theorem duration_rt {fmt : Int → Bytes} {parse : Bytes → Option Int} (L : DurLib fmt parse)
+    (d : Int) (h1 : minI64 ≤ d) (h2 : d ≤ maxI64) : unmarshalDur parse (marshalDur fmt d) = some d := by
+  rw [marshalDur_eq_textOf]
   by_cases hneg : d < 0
   · have hm : -d ≤ maxI64 ∨ (true = true ∧ -d = two63) := by
       by_cases he : d = minI64
@@ -51,19 +51,19 @@ theorem durationFixed_rt {fmt : Int → Bytes} {parse : Bytes → Option Int} (L
     simp only [hneg, decide_false, Bool.false_eq_true, if_false] at this ⊢
     exact this
 
-/-- the proposed marshaller writes the same text wherever the current one is correct -/
-theorem marshalDurFixed_agrees (fmt : Int → Bytes) (d : Int) (h1 : minI64 < d) (h2 : d ≤ maxI64) :
-    marshalDurFixed fmt d = marshalDur fmt d := by
-  rw [marshalDurFixed_eq_textOf, marshalDur_eq_textOf fmt d h1 h2]
+/-- the marshaller writes the same text as its predecessor wherever that one was correct -/
+theorem marshalDur_agrees_old (fmt : Int → Bytes) (d : Int) (h1 : minI64 < d) (h2 : d ≤ maxI64) :
+    marshalDur fmt d = marshalDurOld fmt d := by
+  rw [marshalDur_eq_textOf, marshalDurOld_eq_textOf fmt d h1 h2]
 
 
-/-- the property at full strength for durations — FALSE on the current tree -/
-def duration_rt_full : Prop :=
+/-- the full-strength statement for the marshaller BEFORE commit 6496753 — false (regression record of F-C08b) -/
+def durationOld_rt_full : Prop :=
   ∀ (fmt : Int → Bytes) (parse : Bytes → Option Int), DurLib fmt parse →
-    ∀ d : Int, minI64 ≤ d → d ≤ maxI64 → unmarshalDur parse (marshalDur fmt d) = some d
+    ∀ d : Int, minI64 ≤ d → d ≤ maxI64 → unmarshalDur parse (marshalDurOld fmt d) = some d
 
 /-- `-d` overflows at MinInt64: the text starts with two minus signs and cannot be read back -/
-theorem duration_rt_witness : ¬ duration_rt_full := by
+theorem durationOld_rt_witness : ¬ durationOld_rt_full := by
   intro h
   have := h fmtT parseT toyLib minI64 (by decide) (by decide)
   revert this
@@ -74,75 +74,75 @@ theorem duration_rt_witness : ¬ duration_rt_full := by
 
 
 /-- below 1 KiB the value is printed exactly -/
-theorem ss_rt_small (s : Nat) (h : s < 1024) : roundTripSS s = s := by
-  unfold roundTripSS toBytesQ byteSizeQ rhe
+theorem ssBytefmt_rt_small (s : Nat) (h : s < 1024) : roundTripSSBytefmt s = s := by
+  unfold roundTripSSBytefmt toBytesQ byteSizeQ rhe
   simp only [unitIdx_small h, Nat.pow_zero, Nat.mod_one, Nat.div_one, Nat.mul_zero, Nat.mul_one]
   simp
 
 /-- **characterisation** (in the model, for every uint64): a byte size survives Marshal → Unmarshal exactly when
 it is below 1 KiB or equals ⌊q · unit / 10⌋ for some number of tenths q. -/
-theorem ss_rt_iff (s : Nat) :
-    roundTripSS s = s ↔ (s < 1024 ∨ ∃ q, s = q * 1024 ^ unitIdx s / 10) := by
+theorem ssBytefmt_rt_iff (s : Nat) :
+    roundTripSSBytefmt s = s ↔ (s < 1024 ∨ ∃ q, s = q * 1024 ^ unitIdx s / 10) := by
   constructor
   · intro hr
     exact Or.inr ⟨_, hr.symm⟩
   · rintro (hc | ⟨q, hq⟩)
-    · exact ss_rt_small s hc
+    · exact ssBytefmt_rt_small s hc
     · by_cases hs : s < 1024
-      · exact ss_rt_small s hs
+      · exact ssBytefmt_rt_small s hs
       · have hk := unitIdx_ge (by omega : 1024 ≤ s)
         have hu : 20 < 1024 ^ unitIdx s :=
           calc 20 < 1024 ^ 1 := by decide
             _ ≤ 1024 ^ unitIdx s := Nat.pow_le_pow_right (by decide) hk
-        unfold roundTripSS toBytesQ byteSizeQ
+        unfold roundTripSSBytefmt toBytesQ byteSizeQ
         simp only [rhe_of_floor _ q s hu hq]
         exact hq.symm
 
-/-- the property at full strength for byte sizes — FALSE on the current tree (F-C08) -/
-def ss_rt_full : Prop := ∀ s : Nat, s < 2 ^ 64 → roundTripSS s = s
+/-- the full-strength statement for the bytefmt-based codec BEFORE commit 834859b — false (regression record of F-C08) -/
+def ssBytefmt_rt_full : Prop := ∀ s : Nat, s < 2 ^ 64 → roundTripSSBytefmt s = s
 
 /-- 1500 bytes are printed as "1.5K" and read back as 1536 -/
-theorem ss_rt_witness : ¬ ss_rt_full := by
+theorem ssBytefmt_rt_witness : ¬ ssBytefmt_rt_full := by
   intro h
   have := h 1500 (by decide)
   revert this
   decide
 
 /-- partial: the class outside the finding (whole multiples of the unit are in it) -/
-theorem ss_rt_partial (s : Nat) (h : rtOK s = true) : roundTripSS s = s := by
-  simpa [rtOK] using h
+theorem ssBytefmt_rt_partial (s : Nat) (h : rtOKBytefmt s = true) : roundTripSSBytefmt s = s := by
+  simpa [rtOKBytefmt] using h
 
 
 
 /-- quantitative form of F-C08: the value read back is off by at most one twentieth of the unit (+1 byte of
 truncation), i.e. by at most 5 % -/
-theorem ss_error_bound (s : Nat) :
-    20 * roundTripSS s ≤ 20 * s + 1024 ^ unitIdx s ∧ 20 * s ≤ 20 * roundTripSS s + 1024 ^ unitIdx s + 20 := by
+theorem ssBytefmt_error_bound (s : Nat) :
+    20 * roundTripSSBytefmt s ≤ 20 * s + 1024 ^ unitIdx s ∧ 20 * s ≤ 20 * roundTripSSBytefmt s + 1024 ^ unitIdx s + 20 := by
   have hu : 0 < 1024 ^ unitIdx s := Nat.pow_pos (by decide)
   obtain ⟨h1, h2⟩ := rhe_bound (10 * s) (1024 ^ unitIdx s) hu
-  unfold roundTripSS toBytesQ byteSizeQ
+  unfold roundTripSSBytefmt toBytesQ byteSizeQ
   simp only []
   have hd := Nat.div_add_mod (rhe (10 * s) (1024 ^ unitIdx s) * 1024 ^ unitIdx s) 10
   have hm := Nat.mod_lt (rhe (10 * s) (1024 ^ unitIdx s) * 1024 ^ unitIdx s) (by decide : 0 < 10)
   omega
 
-/-- with the proposed exact encoding every byte size survives — no side condition -/
-theorem ssFixed_rt (s : Nat) : roundTripSSFixed s = s := by
+/-- **StringSize round trip at full strength**: every uint64 byte size survives — no side condition -/
+theorem ss_rt (s : Nat) : roundTripSS s = s := by
   obtain ⟨j, hj, hd⟩ := exactIdxFuel_dvd 6 s 0
-  unfold roundTripSSFixed exactIdx
+  unfold roundTripSS exactIdx
   rw [hj, Nat.zero_add]
   exact Nat.div_mul_cancel hd
 
 
 /-! ### non-vacuity / sanity examples (tests, not theorems) -/
 
-example : roundTripSS 1500 = 1536 ∧ marshalSS 1500 = b!"1.5K" := by decide
-example : roundTripSS 1536 = 1536 ∧ roundTripSS 1126 = 1126 ∧ marshalSS 1126 = b!"1.1K" := by decide
-example : marshalSS 0 = b!"0B" ∧ marshalSS 1023 = b!"1023B" ∧ marshalSS 1048575 = b!"1024K" ∧ roundTripSS 1048575 = 1048576 := by decide
-example : marshalSSFixed 1500 = b!"1500B" ∧ marshalSSFixed 52428800 = b!"50M" ∧ marshalSSFixed 0 = b!"0B" := by decide
-example : marshalDur fmtT 90000000000000 = b!"1d3600000000000ns" ∧ marshalDur fmtT (-5) = b!"-5ns" ∧ marshalDur fmtT 0 = [] := by decide
+example : roundTripSSBytefmt 1500 = 1536 ∧ marshalSSBytefmt 1500 = b!"1.5K" := by decide
+example : roundTripSSBytefmt 1536 = 1536 ∧ roundTripSSBytefmt 1126 = 1126 ∧ marshalSSBytefmt 1126 = b!"1.1K" := by decide
+example : marshalSSBytefmt 0 = b!"0B" ∧ marshalSSBytefmt 1023 = b!"1023B" ∧ marshalSSBytefmt 1048575 = b!"1024K" ∧ roundTripSSBytefmt 1048575 = 1048576 := by decide
+example : marshalSS 1500 = b!"1500B" ∧ marshalSS 52428800 = b!"50M" ∧ marshalSS 0 = b!"0B" := by decide
+example : marshalDurOld fmtT 90000000000000 = b!"1d3600000000000ns" ∧ marshalDurOld fmtT (-5) = b!"-5ns" ∧ marshalDurOld fmtT 0 = [] := by decide
 example : unmarshalDur parseT b!"-2d5ns" = some (-172800000000005) ∧ unmarshalDur parseT b!"d" = none := by decide
--- the hypotheses of `duration_rt` are satisfiable (`toyLib`), and the clamped ParseInt is visible:
+-- the hypotheses of `durationOld_rt_partial` are satisfiable (`toyLib`), and the clamped ParseInt is visible:
 example : unmarshalDur parseT b!"9223372036854775808d" = some (-86400000000000) := by decide
 
 end MtxVerif.C08
